@@ -14,8 +14,8 @@ against `relocBy` along Basic's own address map (Lemmas/BasicBuilderIntern.lean)
                     (these two are checked on the written-out programs `progCharList` / `progSymbol`: evaluating the
                     lexer on a string literal / the symbol hash in the kernel is out of reach)
 So Basic's builder path differs from Simple's in kind, not in the cache decision: nothing is shared, nothing preallocated,
-constants have a footprint; for programs without char lists, byte lists and symbols the real program is the model
-builder's 0-based program itself (`basicRealProg_eq_of_single`).
+constants have a footprint; for programs without char lists, byte lists and symbols the addresses are the model
+builder's own 0-based indexes (`basicBuilderAddr_single`).
 -/
 import Garnish.Lemmas.BasicBuilderIntern
 import Garnish.Props.C01BuilderAddresses
